@@ -152,7 +152,15 @@ func (m *Manager) Allocate(ctx context.Context, cni *daemon.CNI, req *AllocReque
 	var traces []Trace
 
 	m.Lock()
-	switch m.selectionPolicy {
+	selectionPolicy := m.selectionPolicy
+	for _, request := range req.ResourceRequests {
+		// a request that names the eni the pod already uses has to reach that eni before an
+		// empty slot (which accepts any request) does, so do not put the emptiest first
+		if r, ok := request.(*LocalIPRequest); ok && r.NetworkInterfaceID != "" {
+			selectionPolicy = daemon.EniSelectionPolicyMostIPs
+		}
+	}
+	switch selectionPolicy {
 	case daemon.EniSelectionPolicyLeastIPs:
 		sort.Sort(sort.Reverse(ByPriority(m.networkInterfaces)))
 	default:
